@@ -57,6 +57,68 @@ def c03(ctx):
             exact_ok += 1
     cov.update(fresh_verification_ok=fresh_ok, fresh_verification_failed=fresh_bad, exactness_ok=exact_ok,
                exactness_failed=exact_bad, exactness_skipped_symlinked_dirs=exact_skipped, exactness_problem_kinds=pk)
+    cli_update_several(ctx)
+
+
+def cli_update_several(ctx):
+    """`gemato update p1 p2 ...` in one run is `gemato update p1; gemato update p2; ...`: afterwards every requested directory
+    verifies whenever it does after the separate runs, and the Manifests on disk are the same"""
+    quick = ctx.tier == 'quick'
+    r = ctx.rng('c03cli')
+    st = {'runs': 0, 'all_exit0': 0, 'paths_verified': 0, 'same_manifests': 0}
+    with ET.Scratch() as sc:
+        for _ in range(260 if quick else 2600):
+            c = PT.gen_update_case(r, rounds=0)
+            t = c.tree
+            if t.lookup('Manifest') is None or t.link_paths():
+                continue
+            dirs = [d for d in c.meta['dirs'] if d and not d.startswith('.') and '/.' not in d]
+            k = r.choice([2, 2, 3])
+            if len(dirs) < 2:
+                continue
+            paths = r.sample(dirs, min(k, len(dirs)))
+            if r.random() < 0.2:
+                paths[r.randrange(len(paths))] = ''
+            argv = ['gemato', 'update', '--hashes', ' '.join(c.opts[0])]
+            a, s1 = sc.fresh()
+            b, s2 = sc.fresh()
+            try:
+                t.realise(a, s1)
+                t.realise(b, s2)
+                key = GT.order_key_for(c.meta['order_seed'])
+                paths = [p for p in paths if os.path.isdir(os.path.join(a, p))]
+                if len(paths) < 2:
+                    continue
+                full = lambda base, p: os.path.join(base, p) if p else base
+                with ET.ScandirOrder(key):
+                    rc_multi, log_multi = PT.run_cli_collect(argv + [full(a, p) for p in paths])
+                    rc_single = [PT.run_cli_collect(argv + [full(b, p)])[0] for p in paths]
+                    ver_a = [PT.run_cli_collect(['gemato', 'verify', '--keep-going', '--no-openpgp-verify', full(a, p)]) for p in paths]
+                    ver_b = [PT.run_cli_collect(['gemato', 'verify', '--keep-going', '--no-openpgp-verify', full(b, p)]) for p in paths]
+                man = lambda base: {p: d for p, d, mt in ET.list_real_files(base) if os.path.basename(p).startswith('Manifest')}
+                ma, mb = man(a), man(b)
+            finally:
+                sc.cleanup(a, s1)
+                sc.cleanup(b, s2)
+            st['runs'] += 1
+            if rc_multi != 0 or any(x != 0 for x in rc_single):
+                continue
+            st['all_exit0'] += 1
+            replay = {'argv': argv, 'paths': paths, 'meta': meta_of(c), 'tree': PT.describe(t)}
+            for p, (va, ia), (vb, ib) in zip(paths, ver_a, ver_b):
+                if vb == 0 and va != 0:
+                    replay.update(path=p, verify_exit=va, reports=ia)
+                    ctx.violation('spec', f'after `gemato update {" ".join(repr(x) for x in paths)}` (exit 0) the directory {p!r} does not verify '
+                                  f'({len(ia)} reports); after separate updates of the same paths it does', replay)
+                elif va == 0:
+                    st['paths_verified'] += 1
+            if ma == mb:
+                st['same_manifests'] += 1
+            elif all(v[0] == 0 for v in ver_b):
+                diff = sorted(p for p in set(ma) | set(mb) if ma.get(p) != mb.get(p))
+                replay['differing'] = diff[:6]
+                ctx.violation('spec', f'`gemato update` over several paths in one run leaves other Manifests than separate runs: {diff[:4]}', replay)
+    ctx.count('cli:update-several-paths', st['runs'], st['runs'], dist=st)
 
 
 # --------------------------------------------------------------------------- C10
